@@ -245,11 +245,15 @@ func c08SPSide(c *Ctx) {
 		{"bearer-expired", func(a *saml.Assertion) {
 			a.Subject.SubjectConfirmations[0].SubjectConfirmationData.NotOnOrAfter = now.Add(-time.Hour)
 		}, 1, "rejected"},
-		{"wrong-audience", func(a *saml.Assertion) { a.Conditions.AudienceRestrictions[0].Audience.Value = "https://other.example.com/md" }, 1, "rejected"},
+		{"wrong-audience", func(a *saml.Assertion) {
+			a.Conditions.AudienceRestrictions[0].Audience.Value = "https://other.example.com/md"
+		}, 1, "rejected"},
 		{"wrong-recipient", func(a *saml.Assertion) {
 			a.Subject.SubjectConfirmations[0].SubjectConfirmationData.Recipient = "https://other.example.com/acs"
 		}, 1, "rejected"},
-		{"wrong-in-response-to", func(a *saml.Assertion) { a.Subject.SubjectConfirmations[0].SubjectConfirmationData.InResponseTo = "id-other" }, 1, "rejected"},
+		{"wrong-in-response-to", func(a *saml.Assertion) {
+			a.Subject.SubjectConfirmations[0].SubjectConfirmationData.InResponseTo = "id-other"
+		}, 1, "rejected"},
 		{"wrong-issuer", func(a *saml.Assertion) { a.Issuer.Value = "https://evil.example.net/md" }, 1, "rejected"},
 		{"issued-long-ago", func(a *saml.Assertion) { a.IssueInstant = now.Add(-time.Hour) }, 1, "rejected"},
 		{"no-subject", func(a *saml.Assertion) { a.Subject = nil }, 1, "rejected"},
